@@ -345,7 +345,14 @@ fn decode_args_with_abi(
             | ArgEncoding::Float { .. }
             => {
                 decrease_len(emitter, &mut remaining_len, 4)?;
-                ScalarValue::Float(f32::from_bits(blob_reader.read_u32().expect("already checked len")))
+                let bits = blob_reader.read_u32().expect("already checked len");
+                if f32::from_bits(bits).is_nan() && bits != f32::NAN.to_bits() {
+                    // (the text can only say `NAN`, which compiles to the standard quiet NaN)
+                    emitter.emit(warning!(
+                        "float argument is a NaN with a nonstandard bit pattern ({bits:#010x}); this will be lost",
+                    )).ignore();
+                }
+                ScalarValue::Float(f32::from_bits(bits))
             },
 
             | ArgEncoding::String { size: size_spec, mask, furibug, ty_color: _ }
